@@ -2,6 +2,7 @@ import Okane.Spec.Import
 import Okane.Model.Literal
 import Okane.Lemmas.ImportReadback
 import Okane.Lemmas.ImportReadbackZero
+import Okane.Lemmas.ImportViseca
 /-!
 # C15 — import emits ledger text that reads back as intended
 
@@ -645,5 +646,130 @@ example : readsBack exPrec widthCjk [builtTree exSmallTxn, builtTree exZeroTxn] 
 example := C15_readback exPrec exPrec_le widthStd exZeroTxn "Assets:Bank" (by decide)
 example := C15_readback exPrec exPrec_le widthCjk exCleanTxn "Assets:Bank" (by decide)
 example := C15_readback_wf exPrec exPrec_le widthStd exCleanTxn "Assets:Bank" (by decide) (by decide)
+
+end Okane.Import
+
+/-! ## The Viseca statement parser (Model/ImportViseca.lean): from the text of the statement to the transactions
+
+Restated from `Lemmas/ImportViseca*.lean`.  The model starts at the *lines of the file*: `LineReader`, the four regexes as explicit
+recognisers, `parse_euro_date`, `parse_decimal` (rust_decimal's `from_str`), `Parser::parse_entry`, `viseca.rs::import`; tied to the
+real `viseca::parser::Parser` and `import::import` by the stream `viseca-text` of this check. -/
+namespace Okane.Import
+open Okane Okane.Import.Viseca
+
+/-- **C15_viseca_total** (totality): for every regex engine for the configured patterns, every configuration and every list of
+lines — also lines that are not UTF-8 — the Viseca importer returns transactions or an `ImportError`: the model has no panic
+site, and the one-line-per-turn fuel of its loops is never exhausted (`Fine` = neither `panic` nor `fuelOut`). -/
+theorem C15_viseca_total (env : VisecaEnv) (cfg : ConfigEntry) (lines : List RawLine) :
+    Fine (visecaImport env cfg lines) ∧ Fine (parseEntries cfg.commodity.primary lines) :=
+  ⟨visecaImport_total env cfg lines, parseEntries_total _ lines⟩
+
+/-- **C15_viseca_one_per_record**: when the import succeeds the parser alone reads the whole statement, the transactions are the
+conversions of its records — one each, in order — and every record starts at its own head line of the file: the line numbered
+`lineCount` matches `FIRST_LINE` after `trim_end`, the numbers strictly increase (`Heads`).  So the number of transactions is the
+number of head lines consumed. -/
+theorem C15_viseca_one_per_record (env : VisecaEnv) (cfg : ConfigEntry) (lines : List RawLine) (ts : List Txn)
+    (h : visecaImport env cfg lines = .ok ts) :
+    ∃ es, parseEntries cfg.commodity.primary lines = .ok es ∧
+      Each₂ (fun e t => entryToTxn env cfg e = .ok t) es ts ∧ ts.length = es.length ∧ Heads lines 0 es ∧
+      ∀ e ∈ es, WfEntry cfg.commodity.primary e := by
+  obtain ⟨es, h1, h2, h3, h4⟩ := visecaImport_one_per_record env cfg lines ts h
+  exact ⟨es, h1, h2, h3, h4, parseEntries_wf _ lines es h1⟩
+
+/-- **C15_viseca_roundtrip**: for every list of canonical entries (`canonStatement`, decidable: dates in the two-digit-year window,
+payee without line feed and — for a record without currency group — not itself ending like one, numbers that fit a `Decimal`,
+one sign for the head line, a trimmed category that does not start with a digit, detail lines exactly where `parse_entry` asks
+for them) the statement text `printStatement` writes is read back by the parser as exactly those entries, numbered by the lines
+their records start at — also from the statement *text* (`statementText`, the lines one after the other), which `BufRead::read_line`
+(`linesOf`) cuts back into exactly the lines written; and one record followed by anything that starts like a head line is read as
+that record, consuming exactly its lines. -/
+theorem C15_viseca_roundtrip (primary : String) :
+    (∀ es, canonStatement primary es = true → parseEntries primary (printStatement es) = .ok (renumber 0 es)) ∧
+    (∀ es, canonStatement primary es = true → linesOf (statementText es) = printStatement es ∧
+      parseEntries primary (linesOf (statementText es)) = .ok (renumber 0 es)) ∧
+    (∀ e rest n, canonEntry primary e = true → FollowOk rest →
+      parseEntry primary ⟨(printEntry e).map RawLine.text ++ rest, n⟩ =
+        .ok (some { e with lineCount := n + 1 }, ⟨rest, n + (printEntry e).length⟩)) :=
+  ⟨fun es h => parseEntries_printStatement primary es h,
+   fun es h => ⟨printStatement_linesOf primary es h, parseEntries_statementText primary es h⟩,
+   fun e rest n h hf => parseEntry_printEntry primary e h rest hf n⟩
+
+/-- **C15_viseca_amounts** (sign / amount facts of `viseca.rs::import`): the transaction of a record carries **minus** the
+statement amount in the card's commodity; a fee line becomes exactly one charge (its amount as read, negative for a credit of
+fee) paid to the operator; an exchange line becomes the one rate, keyed by the *spent* commodity and priced in the *equivalent's*
+commodity, and the transferred amount is minus the spent amount. -/
+theorem C15_viseca_amounts {env : VisecaEnv} {cfg : ConfigEntry} {e : Viseca.Entry} {t : Txn} (h : entryToTxn env cfg e = .ok t) :
+    t.amount = ⟨e.amount.negate, cfg.commodity.primary⟩ ∧ t.date = e.date ∧
+    t.effectiveDate = (if e.date ≠ e.effectiveDate then some e.effectiveDate else none) ∧
+    (match e.fee with
+     | some f => ∃ op, cfg.operator = some op ∧ t.charges = [⟨op, f.amount⟩]
+     | none => t.charges = []) ∧
+    (match e.exchange, e.spent with
+     | some x, some s => t.rates = [(s.commodity, ⟨x.rate, x.equivalent.commodity⟩)] ∧ t.transferredAmount = some s.negate ∧
+         x.equivalent.commodity ≠ s.commodity
+     | some _, none => False
+     | none, some s => t.rates = [] ∧ t.transferredAmount = some s.negate
+     | none, none => t.rates = [] ∧ t.transferredAmount = none) := by
+  have h1 := entryToTxn_amount h
+  exact ⟨h1.1, h1.2.1, h1.2.2.1, entryToTxn_charges h, entryToTxn_rate h⟩
+
+/-- **C15_viseca_card_posting** (the facts above in the tree `to_double_entry` builds, through `C15_tree`): for an entry the parser
+can produce (`WfEntry`) the transaction has `2 + (1 if fee)` postings; the posting on the card account is the last one for a
+spending and the first one for a credit, and it is `-amount` in the card's commodity, digit for digit, without `@ rate`. -/
+theorem C15_viseca_card_posting {env : VisecaEnv} {cfg : ConfigEntry} {e : Viseca.Entry} {t : Txn} (src : String)
+    (hw : WfEntry cfg.commodity.primary e) (h : entryToTxn env cfg e = .ok t) :
+    ∃ tr, t.toDoubleEntry src = .ok tr ∧
+      tr.posts.length = 2 + (if e.fee.isSome then 1 else 0) ∧
+      (if e.amount.neg then tr.posts.head? else tr.posts.getLast?) = some
+        { account := src, clear := .uncleared,
+          amount := some { amount := .amt ⟨!e.amount.neg, e.amount.mant, e.amount.scale, none⟩ cfg.commodity.primary,
+                           cost := none, lot := {} },
+          balance := none, metadata := [] } := by
+  have ht := C15_tree t src
+  simp only at ht
+  refine ⟨_, ht, ?_, ?_⟩
+  · have hc := entryToTxn_charges h
+    cases hf : e.fee with
+    | none => rw [hf] at hc; simp only [] at hc; split <;> simp [hc]
+    | some f => rw [hf] at hc; obtain ⟨op, _, hch⟩ := hc; split <;> simp [hch]
+  · obtain ⟨ha, _, _, _, _, _, _, _, hbal⟩ := entryToTxn_amount h
+    have hr := entryToTxn_rate h
+    have hrate : rateFor t cfg.commodity.primary = none := by
+      unfold rateFor
+      cases hx : e.exchange with
+      | none =>
+        cases hs : e.spent <;> rw [hx, hs] at hr <;> simp only [] at hr <;> rw [hr.1] <;> rfl
+      | some x =>
+        obtain ⟨s, hs, hne⟩ := hw.1 x hx
+        rw [hx, hs] at hr
+        simp only [] at hr
+        rw [hr.1]
+        simp [AMap.get?, hne]
+    have hneg : t.amount.value.neg = !e.amount.neg := by rw [ha]; rfl
+    have hsrc : shownAmount t t.amount =
+        { amount := .amt ⟨!e.amount.neg, e.amount.mant, e.amount.scale, none⟩ cfg.commodity.primary, cost := none, lot := {} } := by
+      unfold shownAmount
+      rw [ha]
+      simp only [Dec.negate, Dec.isSignPositive]
+      rw [hrate]
+    rw [hneg, hsrc, hbal]
+    cases e.amount.neg
+    · simp only [Bool.not_false, if_true, Bool.false_eq_true, if_false, Option.map_none]
+      rw [List.getLast?_concat]
+    · simp
+
+/-- the theorems apply: the sample statement's records are canonical (`Lemmas/ImportViseca.lean`: `exStatement`), are read from the
+statement text as written, and the second one becomes `-52.10 CHF` on the card, `46.88 EUR @ 1.092432 CHF`, one `0.90 CHF` charge -/
+example : canonStatement "CHF" exStatement = true := by decide +kernel
+example := (C15_viseca_roundtrip "CHF").1 exStatement (by decide +kernel)
+example : Fine (visecaImport exEnv exCfg exLines) := (C15_viseca_total exEnv exCfg exLines).1
+example : ∃ ts, visecaImport exEnv exCfg exLines = .ok ts ∧ ts.length = 5 := by
+  cases h : visecaImport exEnv exCfg exLines with
+  | ok ts => exact ⟨ts, rfl, by have : (visecaImport exEnv exCfg exLines).map' List.length = .ok 5 := by decide +kernel
+                                rw [h] at this; simpa [Outcome.map'] using this⟩
+  | err x => have : (visecaImport exEnv exCfg exLines).isOk = true := by decide +kernel
+             rw [h] at this; simp [Outcome.isOk] at this
+  | panic s => have := (C15_viseca_total exEnv exCfg exLines).1; rw [h] at this; simp at this
+  | fuelOut => have := (C15_viseca_total exEnv exCfg exLines).1; rw [h] at this; simp at this
 
 end Okane.Import
